@@ -1,39 +1,188 @@
-PROPERTIES = ['C12']
+"""C12 duration / time_point arithmetic and rounding casts (also serves C02 with the UB build of the same queries)."""
+from math import gcd
+
+PROPERTIES = ['C12', 'C02']
 PERIODS = {'nano': (1, 1000000000), 'micro': (1, 1000000), 'milli': (1, 1000), 'sec': (1, 1), 'min': (60, 1), 'hour': (3600, 1), 'day': (86400, 1),
            'third': (1, 3), 'r5_7': (5, 7), 'ntsc': (1001, 30000)}
 BOUNDS = {
-    'quick': '30 representative ordered period pairs x Rep {int32,int64}; duration_cast/floor/ceil, +,-,comparisons, conversion to common type: all tick counts of the Rep within the representable domain; round and time_point round: |count| < 2^20; symbolic divisors/multipliers (d/d, d%d, *=, /=, %=): |divisor| < 2^15, dividend full range',
-    'thorough': 'all 100 ordered pairs x {int32,int64}; as quick but round |count| < 2^24',
+    'quick': ('30 ordered period pairs out of the 10x10 grid {nano,micro,milli,1,minute,hour,day,1/3,5/7,1001/30000} x Rep {int32,int64}. '
+              'duration_cast, floor, ceil, time_point_cast/floor/ceil/round, round == std::chrono, + - comparisons, conversion to the common type, d/d and d%d == std::chrono, '
+              'abs, unary, ++/--, += -=, /= %= : EVERY tick count of the Rep inside the representable domain (exact result and common-type intermediates fit; interval computed at compile time). '
+              'round against the rational oracle: every count of the domain when the conversion factor is integral (finer target), |count| < 2^20 when it divides (coarser target); '
+              'additionally Rep=int16 on 12 pairs where round/floor/ceil/cast are decided for ALL counts of the Rep (template logic, full range). '
+              'Oracles with a symbolic product (d/d quotient definition, *=, /= definition): |divisor or multiplier| < 2^DLIM, DLIM=6, |dividend| < 2^16 for d/d and /=. '
+              'float/double Rep on 4 pairs: cast, floor, ceil, abs, + -, comparisons, d/d, compound ops, converting constructor, time_point casts == libstdc++ bit for bit for every bit pattern (NaN excluded for comparisons). '
+              'mixed Rep (int32+int64, int64+int16, float+double, int+floating) + - comparisons, common-type conversion on 2 pairs.'),
+    'thorough': ('as quick with all 100 ordered pairs x {int32,int64}; round with the rational oracle |count| < 2^24 for dividing factors; int16 on every pair with a non-empty domain; '
+                 'DLIM=8; float/double on 30 pairs; mixed Rep on 6 pairs'),
 }
-ASSUMPTIONS = ['C12: inputs restricted to those whose exact result and intermediate common-type / intmax_t values are representable (outside that std::chrono is undefined too)',
-               'C12: abs excludes Rep::min; division/modulo exclude zero divisors and min / -1']
+ASSUMPTIONS = [
+    'C12: inputs restricted to those whose exact result and intermediate common-type / intmax_t values are representable (outside that std::chrono is undefined too); the domain is an interval of counts computed by a constexpr 128-bit search in the driver and static_assert-checked at its ends',
+    'C12: abs and unary minus exclude Rep::min, ++/-- exclude the extreme value; division/modulo exclude zero divisors and min / -1',
+    'C12: floating-point Rep: the oracle is libstdc++ std::chrono executed through the same pipeline (bit-exact agreement), not a rational oracle; NaN counts are excluded from the comparison operators (libstdc++ answers false for NaN <= NaN, the standard wording !(rhs < lhs) and etl answer true); round is not defined for floating Rep (std constraint)',
+    'C12: integer operands of a mixed integer/floating pair are restricted to counts whose exact common-type value has at most 24/53 significant bits (then the exact result is representable and std::chrono yields it)',
+    'C12: q_round with RLIM and the entries with DLIM/ALIM are range-bounded as stated in BOUNDS; everything else is over the whole domain',
+    'C12: binary duration*scalar, scalar*duration, duration/scalar, duration%scalar, time_point +/- duration and time_point - time_point do not exist in tetl (missing functionality, nothing to encode); the time_point converting constructor does not compile (time_point.hpp:55 calls time_since_epch()) and is therefore not encodable either',
+]
 QUICK_PAIRS = [('milli', 'sec'), ('sec', 'milli'), ('nano', 'micro'), ('micro', 'nano'), ('sec', 'min'), ('min', 'sec'), ('min', 'hour'), ('hour', 'min'),
                ('sec', 'day'), ('day', 'sec'), ('third', 'sec'), ('sec', 'third'), ('r5_7', 'third'), ('third', 'r5_7'), ('ntsc', 'milli'), ('milli', 'ntsc'),
                ('r5_7', 'ntsc'), ('ntsc', 'r5_7'), ('micro', 'milli'), ('milli', 'micro'), ('hour', 'day'), ('day', 'hour'), ('milli', 'min'), ('min', 'milli'),
                ('sec', 'sec'), ('r5_7', 'sec'), ('sec', 'r5_7'), ('ntsc', 'sec'), ('sec', 'ntsc'), ('nano', 'milli')]
-ROUNDING = ['q_cast', 'q_floor', 'q_ceil']
-ROUND = ['q_round', 'q_round_std', 'q_tp_casts']
-PAIRWISE = ['q_period', 'q_addsub', 'q_cmp', 'q_moddiv', 'q_tp_arith']
-UNARY = ['q_abs', 'q_unary', 'q_compound']
+I16_PAIRS = [('milli', 'sec'), ('sec', 'milli'), ('sec', 'min'), ('min', 'sec'), ('min', 'hour'), ('hour', 'min'), ('third', 'sec'), ('sec', 'third'),
+             ('r5_7', 'third'), ('third', 'r5_7'), ('hour', 'day'), ('day', 'hour')]
+FLOAT_PAIRS_Q = [('milli', 'sec'), ('sec', 'milli'), ('r5_7', 'ntsc'), ('min', 'third')]
+# mixed Rep: (REPW, REP2W) -> per tier the (From period, To period) pairs and the solver order that was measured to finish
+MIXED = {
+    (32, 64): dict(quick=[('min', 'third')], more=[('sec', 'milli'), ('milli', 'sec')], solver=['kissat']),
+    (64, 16): dict(quick=[('min', 'third')], more=[('sec', 'milli')], solver=['kissat']),
+    (132, 164): dict(quick=[('sec', 'milli'), ('min', 'third')], more=[('milli', 'sec'), ('r5_7', 'ntsc')], solver=['kissat', 'cvc5']),
+    (164, 132): dict(quick=[('sec', 'milli'), ('min', 'third')], more=[('milli', 'sec'), ('r5_7', 'ntsc')], solver=['cvc5', 'kissat']),
+    (164, 32): dict(quick=[('sec', 'milli'), ('min', 'third')], more=[('hour', 'min')], solver=['cvc5', 'kissat']),
+    # integer operand with a factor other than 1 into a floating common type: (double)(a * 1000) == (double)a * 1000.0 gets no
+    # verdict from any back end even for |a| < 2^12, so ('sec','milli') only carries the confirm query of the known finding
+    (64, 164): dict(quick=[('milli', 'sec'), ('sec', 'milli')], more=[], solver=['cvc5', 'kissat'], confirm_only=[('sec', 'milli')]),
+}
+
+SMT = ['cvc5int']          # decided by cvc5 on the exported VC (integer view of the bit-vector VC)
+SMTF = ['cvc5', 'kissat']  # floating point: cvc5 (shares identical terms of the two libraries); SAT only to obtain a trace
+SAT = ['kissat']
+
+
+def lcm(a, b):
+    return a // gcd(a, b) * b
+
+
+def consts(fn, fd, tn, td):
+    """CN/CD (reduced conversion factor From->To), FF/TF (factors into the common period) - mirrors driver.cpp"""
+    n, d = fn * td, fd * tn
+    g = gcd(n, d)
+    cn, cd = n // g, d // g
+    pn, pd = gcd(fn, tn), lcm(fd, td)
+    ff = (fn * pd) // (fd * pn)
+    tf = (tn * pd) // (td * pn)
+    return cn, cd, ff, tf
+
+
+def tq(c, cn, cd):
+    v = abs(c * cn) // cd
+    return v if c * cn >= 0 else -v
+
+
+def dom(pred, rmax):
+    """mirrors mkdom() of driver.cpp"""
+    if not pred(0):
+        return None
+    l, h = 0, rmax
+    while l < h:
+        m = l + (h - l + 1) // 2
+        if pred(m): l = m
+        else: h = m - 1
+    hi = l
+    l, h = -rmax - 1, 0
+    while l < h:
+        m = l + (h - l) // 2
+        if pred(m): h = m
+        else: l = m + 1
+    return (l, hi)
+
+
+def domains(w, fn, fd, tn, td):
+    cn, cd, ff, tf = consts(fn, fd, tn, td)
+    rmax = (1 << (w - 1)) - 1
+    fits = lambda v: -rmax - 1 <= v <= rmax
+    f64 = lambda v: -(1 << 63) <= v <= (1 << 63) - 1
+    p_cast = lambda c: f64(c * cn) and fits(tq(c, cn, cd))
+    p_cmpct = lambda c: p_cast(c) and fits(c * ff) and fits(tq(c, cn, cd) * tf)
+    p_floor = lambda c: p_cmpct(c) and fits(tq(c, cn, cd) - 1)
+    p_ceil = lambda c: p_cmpct(c) and fits(tq(c, cn, cd) + 1)
+    p_round = lambda c: p_floor(c) and p_ceil(c) and fits((tq(c, cn, cd) - 1) * tf) and fits((tq(c, cn, cd) + 1) * tf)
+    return {'cast': dom(p_cast, rmax), 'floor': dom(p_floor, rmax), 'ceil': dom(p_ceil, rmax), 'round': dom(p_round, rmax),
+            'a': dom(lambda a: fits(a * ff), rmax), 'b': dom(lambda b: fits(b * tf), rmax), 'cd': cd, 'cn': cn}
+
+
+def wide(d, n=8):
+    return d is not None and d[1] - d[0] >= n
+
+
+def int_queries(tier, w, f, t, arith=True, rlim_div=20, dlim=6, bud=90):
+    fn, fd = PERIODS[f]; tn, td = PERIODS[t]
+    D = domains(w, fn, fd, tn, td)
+    full16 = (w == 16)
+    rlim = 0 if (D['cd'] == 1 or full16) else rlim_div
+    cfg = {'REPW': w, 'FN': fn, 'FD': fd, 'TN': tn, 'TD': td, 'RLIM': rlim, 'DLIM': dlim, 'ALIM': 16 if w > 16 else 0}
+    out = []
+
+    def add(entry, solver, **kw):
+        out.append(dict(entry=entry, cfg=cfg, unwind=3, solver=solver, budget=bud, **kw))
+    if wide(D['cast']): add('q_cast', SMT + SAT)
+    if wide(D['floor']): add('q_floor', SMT + SAT)
+    if wide(D['ceil']): add('q_ceil', SMT + SAT)
+    if wide(D['round']):
+        add('q_round', (SMT + SAT) if rlim == 0 and not full16 else SAT)
+        add('q_tp_casts', SMT)
+        if 1 < D['cd'] < (1 << 18) and D['round'][0] <= -2 * D['cd'] and D['round'][1] >= 2 * D['cd']:
+            add('q_reach', SAT)
+    if arith and wide(D['a']) and wide(D['b']):
+        add('q_add', SAT); add('q_sub', SAT); add('q_common', SAT); add('q_cmp', SAT); add('q_tp_cmp', SAT)
+        add('q_moddiv', SMT); add('q_moddef', SAT); add('q_divdef', SAT)
+    return out
+
+
+def unary_queries(w, f, dlim, bud):
+    fn, fd = PERIODS[f]
+    cfg = {'REPW': w, 'FN': fn, 'FD': fd, 'TN': 1, 'TD': 1, 'RLIM': 0, 'DLIM': dlim, 'ALIM': 16 if w > 16 else 0}
+    out = []
+    for e, s in (('q_period', ['minisat']), ('q_abs', SAT), ('q_unary', SAT), ('q_caddsub', SAT), ('q_cmul', SAT), ('q_cmul_std', SMT), ('q_cdivmod', SMT),
+                 ('q_cdivdef', SAT), ('q_tp_arith', SAT)):
+        out.append(dict(entry=e, cfg=cfg, unwind=3, solver=s, budget=bud))
+    return out
+
+
+def float_queries(w, f, t, bud):
+    fn, fd = PERIODS[f]; tn, td = PERIODS[t]
+    cfg = {'REPW': w, 'FN': fn, 'FD': fd, 'TN': tn, 'TD': td}
+    return [dict(entry=e, cfg=cfg, unwind=3, solver=SMTF, budget=bud) for e in
+            ('q_fcast', 'q_ffloorceil', 'q_fabs', 'q_faddsub', 'q_fcmp', 'q_fdiv', 'q_fcompound', 'q_ftp_casts', 'q_fconv')]
+
+
+def mixed_queries(w1, w2, f, t, bud, solver, confirm_only=False):
+    fn, fd = PERIODS[f]; tn, td = PERIODS[t]
+    cfg = {'REPW': w1, 'REP2W': w2, 'FN': fn, 'FD': fd, 'TN': tn, 'TD': td}
+    out = [dict(entry='q_mixed', cfg=cfg, unwind=3, solver=solver, budget=bud, confirm_only=confirm_only)]
+    if w2 > 100 and not confirm_only:
+        out.append(dict(entry='q_mcast', cfg=cfg, unwind=3, solver=SMTF, budget=bud))
+    return out
+
 
 def queries(tier, prop='C12'):
+    quick = tier == 'quick'
     out = []
-    pairs = QUICK_PAIRS if tier == 'quick' else [(a, b) for a in PERIODS for b in PERIODS]
-    bud = 90 if tier == 'quick' else 600
-    rlim = 20 if tier == 'quick' else 24
+    pairs = QUICK_PAIRS if quick else [(a, b) for a in PERIODS for b in PERIODS]
+    bud = 90 if quick else 600
+    rlim_div = 20 if quick else 24
+    dlim = 6 if quick else 8
     for w in (32, 64):
-        for (f, t) in pairs:
-            fn, fd = PERIODS[f]; tn, td = PERIODS[t]
-            cfg = {'REPW': w, 'FN': fn, 'FD': fd, 'TN': tn, 'TD': td, 'CLIM': 0, 'RLIM': rlim}
-            for e in ROUNDING:
-                out.append(dict(entry=e, cfg=cfg, unwind=3, solver=['cvc5int', 'kissat'], budget=bud))
-            for e in ROUND:
-                out.append(dict(entry=e, cfg=cfg, unwind=3, solver=['kissat', 'cvc5int'], budget=bud))
-            for e in PAIRWISE:
-                out.append(dict(entry=e, cfg=cfg, unwind=3, solver=['minisat'] if e == 'q_period' else ['kissat', 'cvc5int'], budget=bud))
-        for f in (['milli', 'r5_7'] if tier == 'quick' else list(PERIODS)):
-            fn, fd = PERIODS[f]
-            cfg = {'REPW': w, 'FN': fn, 'FD': fd, 'TN': 1, 'TD': 1, 'CLIM': 0, 'RLIM': rlim}
-            for e in UNARY:
-                out.append(dict(entry=e, cfg=cfg, unwind=3, solver=['kissat', 'cvc5int'], budget=bud))
+        for i, (f, t) in enumerate(pairs):
+            out += int_queries(tier, w, f, t, arith=(not quick or i % 2 == 0), rlim_div=rlim_div, dlim=dlim, bud=bud)
+        for f in (['milli', 'r5_7'] if quick else list(PERIODS)):
+            out += unary_queries(w, f, dlim, bud)
+    for (f, t) in (I16_PAIRS if quick else [(a, b) for a in PERIODS for b in PERIODS]):
+        out += int_queries(tier, 16, f, t, arith=(not quick), rlim_div=0, dlim=15, bud=bud)
+    out += unary_queries(16, 'milli', 15, bud)
+    fpairs = FLOAT_PAIRS_Q if quick else QUICK_PAIRS
+    for w in (132, 164):
+        for (f, t) in fpairs:
+            out += float_queries(w, f, t, bud)
+    for (w1, w2), m in MIXED.items():
+        for (f, t) in (m['quick'] if quick else m['quick'] + m['more']):
+            out += mixed_queries(w1, w2, f, t, bud, m['solver'], (f, t) in m.get('confirm_only', []))
+    if prop == 'C02':
+        # UB build of the same kernels, functional assertions off: one query per kernel call and configuration
+        seen = set(); sub = []
+        for q in out:
+            if q['entry'] in ('q_reach', 'q_tp_cmp', 'q_moddef', 'q_divdef', 'q_cdivdef', 'q_cmul_std', 'q_period'):
+                continue
+            q = dict(q, ub=True, nofunc=True, solver=(SAT + SMT) if q['solver'] is not SMTF else SMTF)
+            sub.append(q)
+        return sub
     return out
